@@ -12,7 +12,24 @@ normaliser (norm_py) and a structural comparison: encode succeeds on the domain,
 decode(encode(v) + rest) == norm_py(v) with exactly len(rest) bytes left, k concatenated
 encodings decode one after another from one stream, values outside the domain raise and
 dumpb returns nothing.  Values whose dict keys / set elements contain a tuple are a separate,
-labelled class (D18)."""
+labelled class (D18).
+
+Oracle, part 2 (api_oracle / persist_oracle): the same claims through EVERY public encode/decode entry point —
+the process-wide tables (no registry= keyword), loadb on bytes and on streams, serialize_header / serialize /
+deserialize called directly, dumpz / loadz, SerializableEnum ==, !=, hash, name(), ordering after a trip, and the
+persistent format store_persistant / load_persistant / serialize_registry / deserialize_registry with the record
+written by the real writer in a process whose classes carry OTHER type ids (serlib.IdAssignment: swaps of two
+classes of the value, rotations, permutations, shifts, fresh ids) and variants of the stored table (as written,
+rebuilt independently, subset, unknown class names, reordered) — and, around every one of them, the process-level
+state clause: SerializableType.registry / names / next_type_id / custom_id, SerializableEnumType._enums, the type
+dispatch tables, the size caps and every registered class's type_id / _fields / class-level defaults / member tables are
+exactly what they were (serlib.process_state / StateGuard), and the ordinary dumpb/loadb trip of the same classes
+still holds afterwards.
+Units persist_load / persist_store (coq/Model/Persist.v, coq/Extract/U_Persist.v): load_persistant on a counting
+stream (value with this process's ids, bytes left, reads, and the two tables as the call left them — the model's
+reader only reads them) over records written under other id assignments, table variants (subset, unknown names,
+reordered, duplicate ids / names), truncations, bit flips and crafted tables (count / id / name of every value kind);
+store_persistant in a process with another id assignment."""
 import io, struct, ctypes, itertools
 from harness import lib
 from harness import serlib as SL
@@ -25,13 +42,21 @@ RULE = ("recursive value generator over None/bool/int/float/str/bytes/list/tuple
         "bytes, concatenations of 2-6 encodings; separate refused stream (wide ints, overflowing floats, "
         "surrogates, unsupported types, illegal enum values, over-long containers, nested anywhere); "
         "non-trivial = value nests a container or class, or sits on a width / rounding / code-point boundary, "
-        "or is refused")
+        "or is refused; every public entry point (process-wide tables, loadb on streams, serialize/deserialize, dumpz/loadz) on the "
+        "same values; persistent records written under other type-id assignments (swap / rotate / permute / shift / fresh ids, "
+        "stored-table variants subset / unknown names / reordered / duplicates, truncations, bit flips, crafted count/id/name of "
+        "every value kind) — non-trivial = a class of the value carries another id in the writer's process or the stream is not as written; "
+        "process-level state compared before/after every entry point")
 ASSUMPTIONS = [
     "values are finite trees (no cyclic containers) nested less deeply than the interpreter's recursion limit "
     "(theorems: need v <= fuel)",
     "CPython hash collisions between unequal dict keys / set elements are not modelled (an enum key and a "
     "non-enum key with equal hashes make SerializableEnum.__eq__ raise); generators do not mix them",
     "C13_roundtrip assumes norm v = SOk nv: dict keys / set elements are hashable after a trip (no tuple inside a key: D18)",
+    "the persistent format (Model/Persist.v) is modelled and tied by the units persist_load / persist_store, not covered by a theorem; "
+    "a SerializableEnum member used as a stored type id is outside that model (explicit error, such cases are counted and excluded)",
+    "process-level state = what serlib.process_state() lists (the metaclass tables and counters, the dispatch tables, the caps, "
+    "per class: type_id, _fields, annotations, class-level field defaults, enum member tables); other module globals are not watched",
 ]
 TRUSTED = [
     "Flocq 4.1 (binary_normalize, bits_of_b32) for struct.pack('>f'): theorems about flocq_fc inherit the "
@@ -205,7 +230,13 @@ def gen_value2(r, depth):
         return o
     # objects as dict values / keys (hashable by identity), enums as values
     o = SL.gen_obj(r, 1)
-    return r.choice([{o: SL.gen_scalar(r)}, {SL.gen_enum(r): o}, [o, o], {SL.gen_int(r): SL.gen_enum(r)}])
+    twin = type(o)()
+    for f in o._fields:
+        setattr(twin, f, getattr(o, f))
+    other = SL.gen_obj(r, 1)
+    # (instances hash by identity: two instances with equal fields are two elements / two keys, before and after a trip)
+    return r.choice([{o: SL.gen_scalar(r)}, {SL.gen_enum(r): o}, [o, o], {SL.gen_int(r): SL.gen_enum(r)},
+                     {o, twin}, {o, twin, other}, {o: 1, twin: 2}, [{o, other}, {twin: other}]])
 
 
 def str_of_len(r, nbytes):
@@ -460,8 +491,8 @@ def run(run):
     lap('kernels')
     # cap-sized hash containers are too slow for the (quadratic) model in the quick tier: oracle only
     extra = [] if T else [set(range(MAXA)), {i: None for i in range(MAXA)}, set(range(MAXA - 1)), {str(i): i for i in range(MAXA)}]
+    run._lap = lap
     oracle(run, reg, vals + extra, bads, d18)
-    lap('oracle')
     SL.registry_unit(run, 400 if run.thorough() else 80)
     run.rules.append(RULE)
 
@@ -553,6 +584,7 @@ def oracle(run, reg, vals, bads, d18):
     """the property on the implementation alone"""
     r = run.rng
     S = SL.S
+    state0 = SL.process_state()
 
     def enc(v):
         st = io.BytesIO()
@@ -574,6 +606,13 @@ def oracle(run, reg, vals, bads, d18):
         run.oracle_violation(what, case, site)
 
     good = []
+    fp0 = SL.table_fingerprint()
+
+    def state_unchanged(v, api):
+        if SL.table_fingerprint() != fp0:
+            d = SL.state_diff(state0, SL.process_state())
+            report("process-state-changed", {"api": api, "value": srepr(v)[:300], "changed": d[:6]}, "serializable.py:" + api)
+            raise RuntimeError("process-level serializer state changed by %s of %s; later results would be meaningless" % (api, srepr(v)[:200]))
     for v in vals:
         run.evaluations += 1
         dom = in_domain(v)
@@ -596,6 +635,7 @@ def oracle(run, reg, vals, bads, d18):
         except Exception as e:      # noqa
             report("decode-raises", {"value": srepr(v)[:300], "error": type(e).__name__, "cls": "plain"}, "deserialize_value")
             continue
+        state_unchanged(v, "serialize_value/deserialize_value")
         if shape(x) != want:
             report("roundtrip-differs", {"value": srepr(v)[:300], "decoded": srepr(x)[:300]}, "deserialize_value")
         elif pos != len(b):
@@ -647,6 +687,7 @@ def oracle(run, reg, vals, bads, d18):
             pass
         if out is not None:
             report("dumpb-returns-bytes-for-refused-value", {"value": srepr(v)[:300], "bytes": out[:64].hex()}, "Serializable.dumpb")
+        state_unchanged(v, "serialize_value (refused value)")
     # D18 class: hashable before the trip, a list (unhashable) after it
     for v in d18:
         run.evaluations += 1
@@ -667,3 +708,426 @@ def oracle(run, reg, vals, bads, d18):
             report("decode-raises", {"value": srepr(v)[:300], "error": err, "cls": "tuple-in-key"},
                    "deserialize_map/deserialize_set")
     run.sample({"oracle": "roundtrip", "value": srepr(good[-1][0])[:200], "encoded_len": len(good[-1][1])})
+    # nothing process-wide changed while all of the above was encoded, decoded and refused
+    d = SL.state_diff(state0, SL.process_state())
+    if d:
+        report("process-state-changed", {"api": "serialize_value/deserialize_value/dumpb/loadb (all oracle phases)", "changed": d[:6]},
+               "serializable.py")
+    lap = getattr(run, "_lap", lambda name: None)
+    lap("oracle")
+    api_oracle(run, good)
+    lap("oracle-entry-points")
+    persist_oracle(run, good)
+    lap("oracle-persistent")
+    persist_units(run, good)
+    lap("persist-units")
+
+
+# ------------------------------------------------------------------ oracle, part 2: every public entry point of the
+# binary serializer, the default (process-wide) tables, and the process-level state
+#
+# Public encode/decode API of serializable.py and where this file exercises it:
+#   serialize_value / deserialize_value(registry=...)          oracle() above + units ser_enc / ser_dec
+#   deserialize_value / Serializable.loadb WITHOUT registry=   api_oracle: default-tables trip (the way applications call it)
+#   Serializable.dumpb / loadb (bytes and stream)              oracle() + api_oracle
+#   Serializable.serialize_header / serialize / deserialize    api_oracle (called directly)
+#   Serializable.dumpz / loadz (gzip framing)                  api_oracle
+#   Serializable.store_persistant / load_persistant,
+#   serialize_registry / deserialize_registry                  persist_oracle (also under OTHER id assignments)
+#   SerializableEnum: ==, !=, hash, name(), repr after a trip   api_oracle
+#   SerializableType.setRootId, class statements               unit reg_ops (serlib.registry_unit)
+#   Serializable.dumps / loads / toJson / fromJson             property C15
+# Process-level state read by all of them (SerializableType.registry / names / next_type_id / custom_id,
+# SerializableEnumType._enums, serialize_types / deserialize_types, the size caps, each class's type_id / _fields /
+# class-level defaults / enum member tables): must be exactly what it was after ANY encode or decode.
+
+def mk_header(pairs):
+    """a stored registry written independently of serialize_registry: count, then (type id, class name) as base values"""
+    st = io.BytesIO()
+    SL.S.serialize_value(st, len(pairs))
+    for t, n in pairs:
+        SL.S.serialize_value(st, t)
+        SL.S.serialize_value(st, n)
+    return st.getvalue()
+
+
+class _Reporter:
+    def __init__(self, run):
+        self.run = run
+        self.done = set()
+
+    def __call__(self, what, case, site):
+        key = (what, site)
+        if key in self.done:
+            return
+        self.done.add(key)
+        self.run.oracle_violation(what, case, site)
+
+
+def state_clause(report, guard, api, v, extra=None):
+    """the process-level state is what it was when `guard` was entered; otherwise report and put it back"""
+    d = guard.diff()
+    if d:
+        case = {"api": api, "value": srepr(v)[:300], "changed": d[:6]}
+        case.update(extra or {})
+        report("process-state-changed", case, "serializable.py:" + api)
+        guard.restore()
+        return False
+    return True
+
+
+def api_oracle(run, good):
+    """default-tables trips and the rarely used entry points, on values the registry= trip already handled"""
+    r = run.rng
+    S = SL.S
+    report = _Reporter(run)
+    fp0 = SL.table_fingerprint()
+    with SL.StateGuard() as guard:
+        items = good if run.thorough() else (good if len(good) <= 1500 else r.sample(good, 1500))
+        for v, b, want in items:
+            run.evaluations += 1
+            rest = bytes(r.getrandbits(8) for _ in range(r.choice([0, 3])))
+            # the process-wide tables (no registry=): what an application does
+            st = io.BytesIO(b + rest)
+            try:
+                x = S.deserialize_value(st)
+                if shape(x) != want or st.tell() != len(b):
+                    report("default-tables-roundtrip-differs", {"value": srepr(v)[:300], "decoded": srepr(x)[:300],
+                                                                "consumed": st.tell(), "encoded": len(b)}, "deserialize_value")
+            except Exception as e:      # noqa
+                report("decode-raises", {"value": srepr(v)[:300], "error": type(e).__name__, "cls": "default-tables"}, "deserialize_value")
+                x = None
+            if isinstance(v, SL.SerializableEnum) and x is not None:
+                try:
+                    ok = (x == v) and not (x != v) and hash(x) == hash(v) and x.name() == v.name() and repr(x) == repr(v) \
+                        and type(x) is type(v) and (x <= v) and (x >= v) and not (x < v) and not (x > v) and bool(x) == bool(v)
+                except Exception as e:  # noqa
+                    ok = False
+                if not ok:
+                    report("enum-not-equal-after-trip", {"value": srepr(v)[:200], "decoded": srepr(x)[:200]}, "SerializableEnum")
+            if isinstance(v, SL.Serializable):
+                api = None
+                try:
+                    api = "loadb"
+                    a = S.Serializable.loadb(b)
+                    st = io.BytesIO(b + rest)
+                    a2 = S.Serializable.loadb(st)
+                    bad = shape(a) != want or shape(a2) != want or st.tell() != len(b) or type(a) is not type(v)
+                    if not bad:
+                        api = "serialize_header/serialize/deserialize"
+                        st = io.BytesIO()
+                        v.serialize_header(st)
+                        v.serialize(st)
+                        o = type(v)()
+                        st2 = io.BytesIO(b[2:] + rest)
+                        o2 = o.deserialize(st2)
+                        bad = st.getvalue() != b or o2 is not o or shape(o) != want or st2.tell() != len(b) - 2
+                    if not bad:
+                        api = "__init__(**fields)/dumpb"
+                        bad = type(v)(**{f: getattr(v, f) for f in v._fields}).dumpb() != b
+                    if not bad and len(b) < 600:
+                        api = "dumpz/loadz"
+                        z = v.dumpz()
+                        bad = shape(S.Serializable.loadz(z)) != want or shape(S.Serializable.loadz(io.BytesIO(z))) != want
+                        run.count("gzip_trips")
+                    if bad:
+                        report("entry-point-roundtrip-differs", {"api": api, "value": srepr(v)[:300]}, "Serializable." + api)
+                except Exception as e:  # noqa
+                    report("entry-point-raises", {"api": api, "value": srepr(v)[:300], "error": type(e).__name__}, "Serializable.%s" % api)
+            if SL.table_fingerprint() != fp0:
+                state_clause(report, guard, "encode/decode entry points", v)
+        state_clause(report, guard, "encode/decode entry points (whole phase)", None)
+    run.count("default_table_trips", len(items))
+
+
+def persist_oracle(run, good):
+    """store_persistant / load_persistant / serialize_registry / deserialize_registry.
+    The stored stream carries the writer's id -> class-name table; the reader may live under ANOTHER id assignment
+    (classes defined in another order / another version).  Claims, from the property text: the object comes back equal,
+    exactly the record's bytes are consumed (records concatenate), and — decoding being a function of the bytes —
+    nothing process-wide changes: afterwards the ordinary dumpb/loadb trips of the very same classes still hold."""
+    r = run.rng
+    S = SL.S
+    T = S.SerializableType
+    report = _Reporter(run)
+    site = "Serializable.store_persistant/load_persistant"
+    objs = [g for g in good if isinstance(g[0], SL.Serializable) and len(g[1]) < 1500]
+    others = [g for g in good if not isinstance(g[0], SL.Serializable) and len(g[1]) < 600]
+    n = 4000 if run.thorough() else 800
+    prev = None
+    for i in range(n):
+        run.evaluations += 1
+        if i % 3 == 2 and others:
+            inner, _, _ = r.choice(others)
+            v = SL.VfHigh()
+            v.v = inner
+        else:
+            v = r.choice(objs)[0]
+        try:
+            want = shape(norm_py(v))
+        except NotInDomain:
+            continue
+        used = sorted(SL.ids_in(v))
+        kind, mapping = SL.gen_id_assignment(r, used)
+        if i < 4:
+            # fixed cases: the two classes of a nested value change places / a class takes the id of another one
+            v = SL.VfBag()
+            v.pt = SL.VfPoint()
+            v.pt.x, v.pt.y = -129, 2 ** 31
+            v.anyv = [SL.VfLow(), SL.VfColor(2), {SL.VfName("bee"): SL.VfPoint()}]
+            want = shape(norm_py(v))
+            used = sorted(SL.ids_in(v))
+            a, b = [(SL.VfBag, SL.VfPoint), (SL.VfPoint, SL.VfLow), (SL.VfColor, SL.VfName), (SL.VfPoint, SL.VfMix)][i]
+            kind, mapping = "swap-fixed", {a.type_id: b.type_id, b.type_id: a.type_id}
+        moved = {T.registry[t].__name__: [t, mapping.get(t, t)] for t in used if mapping.get(t, t) != t}
+        with SL.StateGuard() as guard:
+            # ---- the writer's process
+            with SL.IdAssignment(mapping):
+                there = [(t, c.__name__) for t, c in T.registry.items()]
+                werr = None
+                try:
+                    st = io.BytesIO()
+                    v.store_persistant(st)
+                    blob = st.getvalue()
+                    st = io.BytesIO()
+                    S.serialize_value(st, v)
+                    body = st.getvalue()
+                    st = io.BytesIO()
+                    S.serialize_registry(st)
+                    regbytes = st.getvalue()
+                except Exception as e:      # noqa
+                    werr = e
+            case = {"value": srepr(v)[:300], "ids": kind, "moved": moved}
+            if werr is not None:
+                report("encode-refuses-domain-value", dict(case, error=type(werr).__name__), site)
+                continue
+            if not state_clause(report, guard, "store_persistant", v, {"ids": kind}):
+                continue
+            # the stored table, read back with plain value decodes: count, then (int id, str name) for every class
+            st = io.BytesIO(blob)
+            try:
+                cnt = S.deserialize_value(st, registry={})
+                pairs = [(S.deserialize_value(st, registry={}), S.deserialize_value(st, registry={})) for _ in range(cnt)]
+                hdr_ok = pairs == there and all(type(t) is int and type(nm) is str for t, nm in pairs) \
+                    and blob[st.tell():] == body and blob[:st.tell()] == regbytes
+            except Exception:       # noqa
+                hdr_ok = False
+            if not hdr_ok:
+                report("stored-registry-wrong", dict(case, blob=blob[:400]), "serialize_registry")
+                continue
+            # ---- the reader's process (this one): variants of the stored table
+            variant = r.choice(["as-written", "as-written", "independent-header", "subset", "with-unknown-classes", "reordered"])
+            if variant == "as-written":
+                data = blob
+            else:
+                ps = list(there)
+                if variant == "subset":
+                    keep = set(mapping.get(t, t) for t in used)
+                    ps = [p for p in ps if p[0] in keep or r.random() < 0.3]
+                elif variant == "with-unknown-classes":
+                    free = [t for t in r.sample(range(128, 65536), 8) if t not in dict(ps)]
+                    for t in free[:3]:
+                        ps.insert(r.randrange(len(ps) + 1), (t, "VfNoSuchClass%d" % t))
+                elif variant == "reordered":
+                    r.shuffle(ps)
+                data = mk_header(ps) + body
+            case = dict(case, stored_table=variant, stream=data if len(data) <= 4000 else data[:4000])
+            rest = bytes(r.getrandbits(8) for _ in range(r.choice([0, 0, 2, 9])))
+            try:
+                x1 = S.Serializable.load_persistant(data)
+                st = io.BytesIO(data + rest)
+                x2 = S.Serializable.load_persistant(st)
+                pos = st.tell()
+            except Exception as e:      # noqa
+                report("decode-raises", dict(case, error=type(e).__name__, cls="persistent"), site)
+                state_clause(report, guard, "load_persistant", v, {"ids": kind, "moved": moved})
+                continue
+            if shape(x1) != want or shape(x2) != want:
+                report("roundtrip-differs", dict(case, decoded=srepr(x1)[:300]), site)
+            elif pos != len(data):
+                report("consumes-wrong-length", dict(case, encoded=len(data), consumed=pos), site)
+            elif prev is not None:
+                # records concatenate: two stored records load one after another from one stream
+                st = io.BytesIO(prev[0] + data)
+                try:
+                    y1 = S.Serializable.load_persistant(st)
+                    y2 = S.Serializable.load_persistant(st)
+                    if shape(y1) != prev[1] or shape(y2) != want or st.tell() != len(prev[0]) + len(data):
+                        report("concat-differs", dict(case, consumed=st.tell(), total=len(prev[0]) + len(data)), site)
+                except Exception as e:  # noqa
+                    report("concat-decode-raises", dict(case, error=type(e).__name__), site)
+            prev = (data, want)
+            # ---- afterwards: the ordinary trips of the same classes, through the process-wide tables
+            try:
+                w = S.Serializable.loadb(v.dumpb())
+                if shape(w) != want:
+                    report("roundtrip-differs-after-load_persistant", dict(case, decoded=srepr(w)[:300]), "Serializable.dumpb/loadb")
+            except Exception as e:      # noqa
+                report("roundtrip-differs-after-load_persistant", dict(case, error=type(e).__name__), "Serializable.dumpb/loadb")
+            state_clause(report, guard, "load_persistant", v, {"ids": kind, "moved": moved, "stored_table": variant,
+                                                               "stream": data if len(data) <= 4000 else data[:4000]})
+        run.count("persistent_%s" % kind)
+        if moved:
+            run.nt(("persist", kind, variant, tuple(sorted(moved)), srepr(v)[:200]))
+    run.count("persistent_trips", n)
+
+
+# ------------------------------------------------------------------ correspondence: the persistent format
+# (coq/Model/Persist.v, units persist_load / persist_store)
+
+def names_wire():
+    return [[[ord(ch) for ch in n], int(c.type_id)] for n, c in SL.S.SerializableType.names.items()]
+
+
+def impl_persist_load(data):
+    """-> ([result, stream reads, registry after, names after], pktable)"""
+    S = SL.S
+    T = S.SerializableType
+    st = SL.CountingStream(data)
+    with SL.StateGuard(), SL.KeyOracle() as ko:
+        try:
+            x = S.Serializable.load_persistant(st)
+            r = [0, [shape(x), len(data) - st.tell()]]
+        except Exception as e:      # noqa
+            r = [1, SL.exc_code(e)]
+        reg_after = [[t if type(t) is int else repr(t), int(c.type_id)] for t, c in T.registry.items()]
+        names_after = names_wire()
+        pkw = ko.wire()
+    return [r, st.reads, reg_after, names_after], pkw
+
+
+def persist_streams(run, good):
+    """[(label, bytes)]: stored records written by the REAL writer under other id assignments, with variants of the
+    stored table, then truncated / bit-flipped / crafted ones"""
+    r = run.rng
+    S = SL.S
+    T = S.SerializableType
+    Tt = run.thorough()
+    objs = [g[0] for g in good if isinstance(g[0], SL.Serializable) and len(g[1]) < 400]
+    out = []
+    valid = []
+    for i in range(400 if Tt else 60):
+        v = r.choice(objs)
+        kind, mapping = SL.gen_id_assignment(r, sorted(SL.ids_in(v)))
+        with SL.IdAssignment(mapping):
+            there = [(t, c.__name__) for t, c in T.registry.items()]
+            st = io.BytesIO()
+            S.serialize_value(st, v)
+            body = st.getvalue()
+            st = io.BytesIO()
+            v.store_persistant(st)
+            blob = st.getvalue()
+        variant = r.choice(["as-written", "subset", "unknown", "reordered", "duplicates"])
+        ps = list(there)
+        if variant == "subset":
+            keep = set(mapping.get(t, t) for t in SL.ids_in(v))
+            ps = [p for p in ps if p[0] in keep or r.random() < 0.3]
+        elif variant == "unknown":
+            for t in r.sample(range(128, 65536), 3):
+                if t not in dict(ps):
+                    ps.insert(r.randrange(len(ps) + 1), (t, r.choice(["VfNoSuchClass", "", "vfpoint", "VfPoint "])))
+        elif variant == "reordered":
+            r.shuffle(ps)
+        elif variant == "duplicates":
+            # the same id twice (the later entry wins), one class under two ids
+            a, b = r.choice(ps), r.choice(ps)
+            ps.insert(r.randrange(len(ps) + 1), (a[0], b[1]))
+            ps.append((r.choice([131, 40000, 65535]), a[1]))
+        data = blob if variant == "as-written" else mk_header(ps) + body
+        out.append(("valid-%s-%s" % (kind, variant), data + bytes(r.getrandbits(8) for _ in range(r.choice([0, 0, 3])))))
+        valid.append(data)
+    # malformed: truncations and bit flips of stored records (header and body)
+    for data in valid[: (12 if Tt else 3)]:
+        step = 1 if Tt else 7
+        out += [("trunc", data[:k]) for k in range(0, len(data), step)]
+        pos = range(len(data)) if Tt else sorted(set(list(range(8)) + [r.randrange(len(data)) for _ in range(60)] + list(range(len(data) - 24, len(data)))))
+        for i in pos:
+            k = r.randrange(8)
+            out.append(("flip", data[:i] + bytes([data[i] ^ (1 << k)]) + data[i + 1:]))
+    # crafted tables
+    H = struct.pack
+
+    def val(x):
+        st = io.BytesIO()
+        S.serialize_value(st, x)
+        return st.getvalue()
+    P = SL.VfPoint
+    body = P().dumpb()
+    pid = val(P.type_id)
+    counts = [val(n) for n in (0, 1, 2, 3, 2 ** 14 + 1, 2 ** 31, 2 ** 63 - 1, -1, -2 ** 63)] + \
+        [b"\x00\x01\x01", b"\x00\x01\x00", b"\x00\x0f", H(">Hf", 11, 2.0), val("2"), val(b"\x02"), b"\x00\x10\x00\x03\x00", b"\x00\x08\x02", b""]
+    ids = [pid, val(40000), val(0), val(3), val(-1), val(2 ** 40), b"\x00\x01\x01", H(">Hd", 12, float(P.type_id)), H(">Hf", 11, 300.0),
+           H(">Hd", 12, 300.5), H(">Hd", 12, float("nan")), val(str(P.type_id)), b"\x00\x0f", b"\x00\x10\x00\x03\x00", val(b"ab"), P().dumpb(),
+           b"\x00\x12\x00\x03\x00"]
+    nms = [val("VfPoint"), val("VfColor"), val("VfBag"), val("NoSuchClass"), val(""), val(7), b"\x00\x0f", b"\x00\x10\x00\x03\x00", val(b"VfPoint"),
+           H(">H", SL.VfName.type_id) + val("VfPoint"), H(">H", SL.VfName.type_id) + val("nope"), H(">H", SL.VfName.type_id) + val(5),
+           b"\x00\x0d\x00\x03\x09VfPo", P().dumpb(), b"\x00\x11\x00\x03\x00"]
+    for c in counts:
+        for i in ids[:3] + r.sample(ids[3:], 3):
+            for nm in nms[:2] + r.sample(nms[2:], 3):
+                out.append(("crafted", c + (i + nm) * 2 + body))
+    for i in ids:
+        for nm in nms:
+            out.append(("crafted", val(1) + i + nm + body))
+            out.append(("crafted", val(2) + pid + val("VfPoint") + i + nm + body))
+            # the body uses the id the entry declares (when it is one)
+            out.append(("crafted", val(1) + i + nm + H(">H", 300) + b"\x00\x03\x01\x00\x03\x05"))
+    return out
+
+
+def persist_units(run, good):
+    M = run.model
+    r = run.rng
+    S = SL.S
+    T = S.SerializableType
+    greg = dict(T.registry)
+    gregw = SL.wire_registry(greg)
+    namesw = names_wire()
+    streams = persist_streams(run, good)
+    impl, args = [], []
+    for label, data in streams:
+        res, pkw = impl_persist_load(data)
+        impl.append(res)
+        args.append([gregw, namesw, pkw, SL.BIG_FRAMES, data])
+        run.count("persist_load_" + label.split("-")[0])
+        if label.split("-")[0] != "valid" or "same" not in label:
+            run.nt(("persist_load", data))
+    mod = []
+    ci, ii, mm = [], [], []
+    for (label, data), a, m in zip(streams, impl, M.call_many("persist_load", args)):
+        mr = m[0]
+        if mr[0] == 0:
+            mr = [0, [SL.canon(mr[1][0]), mr[1][1]]]
+        if mr == [1, 9]:
+            # Persist.v's explicit `outside the model` (a SerializableEnum member as a stored id)
+            run.count("persist_load_excluded_outside_model")
+            continue
+        ci.append((label, data))
+        ii.append(a)
+        mm.append([mr, m[1], m[2], m[3]])
+    run.compare("persist_load", ci, ii, mm, describe=lambda c: lib.jsonable({"kind": c[0], "len": len(c[1]), "stream": c[1][:1500]}))
+    run.sample({"unit": "persist_load", "kind": streams[0][0], "stream": streams[0][1][:48].hex(), "impl": lib.jsonable(impl[0][0])[:2]})
+
+    # the writer, in a process with another id assignment
+    objs = [g[0] for g in good if isinstance(g[0], SL.Serializable) and len(g[1]) < 600]
+    cases, si, sargs = [], [], []
+    for i in range(600 if run.thorough() else 60):
+        v = r.choice(objs)
+        if i % 10 == 9:
+            v = SL.VfHigh()
+            v.v = SL.wrap_bad(r, SL.gen_bad_leaf(r), 1)
+        kind, mapping = SL.gen_id_assignment(r, sorted(SL.ids_in(v)))
+        with SL.StateGuard(), SL.IdAssignment(mapping):
+            regw = SL.wire_registry(dict(T.registry))
+            cn = [[int(t), [ord(ch) for ch in c.__name__]] for t, c in T.registry.items()]
+            vw = wire_of(v)
+
+            def f():
+                st = io.BytesIO()
+                v.store_persistant(st)
+                return st.getvalue()
+            si.append(SL.guarded(f))
+        sargs.append([regw, cn, vw])
+        cases.append((kind, srepr(v)[:200]))
+        run.nt(("persist_store", kind, srepr(v)[:200]))
+    run.compare("persist_store", cases, si, M.call_many("persist_store", sargs))
